@@ -88,7 +88,8 @@ def obligations_step(run, prop, tables, tables_err):
     with common.Lock():
         res['generated_changed'] = common.write_generated(tables)
         targets = (['diffx_driver'] + list(prop.TIE_MODULES) +
-                   ['DiffxVerif.Properties.' + prop.PID])
+                   ['DiffxVerif.Properties.' + prop.PID] +
+                   list(getattr(prop, 'EXTRA_MODULES', [])))
         ok, out = common.lake_build(targets)
         res['build_output_tail'] = out[-3000:]
         if not ok:
@@ -122,7 +123,8 @@ def obligations_step(run, prop, tables, tables_err):
     if run.tier == 'thorough' and ok:
         # independent re-check of the compiled property module (and what it imports)
         import subprocess
-        p = subprocess.run(['lake', 'env', 'leanchecker', 'DiffxVerif.Properties.' + prop.PID], cwd=common.LEAN,
+        p = subprocess.run(['lake', 'env', 'leanchecker', 'DiffxVerif.Properties.' + prop.PID] +
+                           list(getattr(prop, 'EXTRA_MODULES', [])), cwd=common.LEAN,
                            stdout=subprocess.PIPE, stderr=subprocess.STDOUT)
         res['leanchecker'] = {'exit': p.returncode, 'output_tail': p.stdout.decode()[-300:]}
         if p.returncode != 0:
@@ -235,7 +237,7 @@ def check(run, prop):
         'obligations': ob['obligations'],
         'discharged': ob['discharged'],
         'checker_cmd': 'cd lean && lake build %s DiffxVerif.Properties.%s && lake env lean DiffxVerif/Audit/%s.lean'
-                       % (' '.join(prop.TIE_MODULES), pid, pid),
+                       % (' '.join(list(prop.TIE_MODULES) + list(getattr(prop, 'EXTRA_MODULES', []))), pid, pid),
         'trusted_base': common.TRUSTED_BASE + list(getattr(prop, 'TRUSTED_EXTRA', [])),
         'theorems': ob['theorems'],
         'broken_obligations': ob['broken'],
